@@ -32,6 +32,10 @@ class Quiescence:
         self.with_queue = 0
         self.viol = []
 
+    def _assigned(self, conn) -> bool:
+        reqs = getattr(self.wl.pool, "_requests", None) or []
+        return any(getattr(pr, "connection", None) is conn for pr in reqs)
+
     def __call__(self) -> None:
         wl = self.wl
         pool = wl.pool
@@ -47,7 +51,9 @@ class Quiescence:
         via = wl.spec.get("proxy") or "direct"
         if len(live) < N and len(self.viol) < 3:
             self.viol.append((f"waiter-although-below-limit:{via}", det))
-        elif any(x.is_idle() for x in conns) and len(self.viol) < 3:
+        elif any(x.is_idle() and not self._assigned(x) for x in conns) and len(self.viol) < 3:
+            # (an idle connection that has a request assigned - about to be used, or still finishing the close of its
+            # response - cannot be evicted)
             self.viol.append((f"waiter-although-idle-connection:{via}", det))
         else:
             reqs = getattr(pool, "_requests", None)
